@@ -113,6 +113,10 @@ def kind(x):
 
 def json_eq(a, b, path=''):
     """Kind-strict JSON comparison.  Returns None if equal else a path/description."""
+    for x, y in ((a, b), (b, a)):
+        if isinstance(x, _NullOrMask):
+            return None if (y is None or y == BLOT_MASK or isinstance(y, _NullOrMask)) \
+                else '%s: %r is neither null nor the mask' % (path or '$', y)
     ka, kb = kind(a), kind(b)
     if ka != kb:
         return '%s: kind %s != %s' % (path or '$', ka, kb)
@@ -390,6 +394,16 @@ class NoAccess(Exception):
 BLOT_MASK = '********'
 
 
+class _NullOrMask:
+    """Reference output for a null under a redactor: null or the blot mask."""
+
+    def __repr__(self):
+        return '<null|mask>'
+
+
+NULL_OR_MASK = _NullOrMask()
+
+
 def redactor_of(m, anns):
     for a in anns:
         ad = m.find_ann(*a)
@@ -438,12 +452,18 @@ def redact_position(red, av):
 
 def encode_p(m, t, av, perms, redact, item=False):
     """Permission- and redaction-aware reference encoder."""
-    if av is None and item and redact and t is not None and t.kind == 'ref' and not t.nullable:
-        # a null item whose type is a redacted alias of a nullable type is still
-        # handed to the redactor (mask / no hash); nothing can leak from null
-        d = m.lookup(t.ns, t.name)
-        if d.kind == 'alias' and redactor_of(m, d.anns):
-            return apply_redactor(redactor_of(m, d.anns), None)
+    if av is None and redact and t is not None and t.kind == 'ref':
+        # a null at a position whose alias chain carries a redactor may be handed to
+        # the redactor (mask) or stay null: nothing can leak from null, so the
+        # property allows both
+        cur = t
+        while cur is not None and cur.kind == 'ref':
+            d = m.lookup(cur.ns, cur.name)
+            if d.kind != 'alias':
+                break
+            if redactor_of(m, d.anns):
+                return NULL_OR_MASK
+            cur = d.type
     if t is None or (t.kind == 'prim' and t.name == 'Void') or av is None:
         return None
     if t.kind == 'prim':
